@@ -946,7 +946,7 @@ if __name__ == '__main__':
         harness_sources=[os.path.join(C.VERIF, 'harness', 'c12.cpp')] + C.repo_lib_sources(
             ['problem/ocproblem.cpp']),
         gen_ops=gen_ops, monitor=monitor, nontrivial=nontrivial,
-        n_quick=260, n_thorough=4000, extra_stage=extra_stage,
+        n_quick=450, n_thorough=10000, extra_stage=extra_stage,
         trusted_base=[
             'Lean 4.33 kernel + Mathlib (axioms: propext, Classical.choice, Quot.sound)',
             'gen/gen_c12.py translator: OCPVariables constructors / enum / size accessors / create* / '
